@@ -1,6 +1,7 @@
 /- Driver ops for C03: TMLE targeting step (`TMLE.fit`, cross-fit `targeting_step`), unit-interval maps. -/
 import Driver.Common
 import ZepidVerif.Model.Tmle
+import ZepidVerif.Gen.TmleFit
 import ZepidVerif.Gen.Weights
 namespace ZVD
 open ZV ZV.Tmle
@@ -47,14 +48,25 @@ def opTmle (a : Args) : Except String String := do
     let (rdl, rdu) := ciLin f.rd z f.rdSe
     let (rrl, rru) := ciLog f.rr z f.rrSe
     let (orl, oru) := ciLog f.or_ z f.orSe
-    pure (s!"ok rd={showFloat f.rd} rdse={showFloat f.rdSe} rdl={showFloat rdl} rdu={showFloat rdu} " ++
+    -- the definition generated from the text of TMLE.fit, on the same inputs (totals already formed: `useMiss` false)
+    let one : TRow Float → Float := fun _ => 1.0
+    let (grd, grdse, (grdl, grdu), grr, grrse, (grrl, grru), gor, gorse, (gorl, goru)) :=
+      Gen.tmle_fit_binary σ lg (ppfTab px pz) false alpha e1 e2 0.0 1.0 rows (fun r => r.g1) (fun r => r.g0) one one qa
+    let gen := s!"grd={showFloat grd} grdse={showFloat grdse} grdl={showFloat grdl} grdu={showFloat grdu} " ++
+      s!"grr={showFloat grr} grrse={showFloat grrse} grrl={showFloat grrl} grru={showFloat grru} " ++
+      s!"gor={showFloat gor} gorse={showFloat gorse} gorl={showFloat gorl} goru={showFloat goru} "
+    pure (s!"ok rd={showFloat f.rd} rdse={showFloat f.rdSe} rdl={showFloat rdl} rdu={showFloat rdu} " ++ gen ++
       s!"rr={showFloat f.rr} rrse={showFloat f.rrSe} rrl={showFloat rrl} rru={showFloat rru} " ++
       s!"or={showFloat f.or_} orse={showFloat f.orSe} orl={showFloat orl} oru={showFloat oru} " ++ common f)
   | "continuous" =>
     let mini ← fl a "mini"; let maxi ← fl a "maxi"
     let f := fitContinuous σ lg e1 e2 mini maxi rows
     let (l, u) := ciLin f.rd z f.rdSe
-    pure (s!"ok ate={showFloat f.rd} atese={showFloat f.rdSe} atel={showFloat l} ateu={showFloat u} " ++ common f)
+    let one : TRow Float → Float := fun _ => 1.0
+    let (gate, gatese, (gatel, gateu)) :=
+      Gen.tmle_fit_continuous σ lg (ppfTab px pz) false alpha e1 e2 mini maxi rows (fun r => r.g1) (fun r => r.g0) one one qa
+    pure (s!"ok ate={showFloat f.rd} atese={showFloat f.rdSe} atel={showFloat l} ateu={showFloat u} " ++
+      s!"gate={showFloat gate} gatese={showFloat gatese} gatel={showFloat gatel} gateu={showFloat gateu} " ++ common f)
   | _ => throw ("unknown-kind:" ++ kind)
 
 /-- distinct split ids in increasing order (CPython iterates a set of small non-negative ints in that order) -/
